@@ -182,6 +182,7 @@ class Interp:
         self.inline_module_functions = inline_module_functions
         self.resolve_module_constants = inline_module_functions
         self._resolving = set()
+        self._class_consts = {}
         # a self-call that is neither hooked nor inlined is a silent no-op unless strict
         self.strict_self_calls = strict_self_calls
         self.dyn = dyn
@@ -597,6 +598,19 @@ class Interp:
                         return self.invoke(g, [], {}, base)
                     if g is not None:
                         return BoundMethod(base, g)
+                    # a class-level attribute (`name = <expression>` in the class body of the class or of a base):
+                    # evaluated once per interpreter, so that every reader sees the SAME object, as in Python
+                    for cq in self.hier.mro(base.attrs["__cls__"]):
+                        cobj = self.hier.repo.classes.get(cq)
+                        if cobj is None:
+                            continue
+                        val_node = cobj.class_assign(e.attr)
+                        if val_node is not None:
+                            key = (cq, e.attr)
+                            if key not in self._class_consts:
+                                anyf = next((x for fs in cobj.methods.values() for x in fs), None)
+                                self._class_consts[key] = self.eval(val_node, {}, anyf or f)
+                            return self._class_consts[key]
                 return base.attrs.get(e.attr, TOP)
             if isinstance(base, Record):
                 return base.kwargs.get(e.attr, TOP)
@@ -908,6 +922,9 @@ class Interp:
                 return d
             if n == "defaultdict" and len(c.args) == 1 and isinstance(c.args[0], ast.Name) and c.args[0].id in ("list", "dict", "set"):
                 return _collections.defaultdict({"list": list, "dict": dict, "set": set}[c.args[0].id])
+            if n == "setattr" and len(args) == 3 and isinstance(args[1], str) and isinstance(args[0], Obj) and "__cls__" not in args[0].attrs:
+                args[0].attrs[args[1]] = args[2]
+                return None
             if n == "getattr" and len(args) in (2, 3) and isinstance(args[1], str):
                 tgt = args[0]
                 if isinstance(tgt, (list, dict, set)):
